@@ -1428,6 +1428,13 @@ class SocketStream(abc.SocketStream):
 
             await self._protocol.write_event.wait()
 
+            # The wait also ends when the connection is lost, in which case the data that
+            # was still buffered has been dropped
+            if self._closed:
+                raise ClosedResourceError
+            elif self._protocol.exception is not None:
+                raise BrokenResourceError from self._protocol.exception
+
     async def send_eof(self) -> None:
         try:
             self._transport.write_eof()
